@@ -46,11 +46,26 @@ theorem map_insertLeaf_eq (fuel : Nat) (h : Heap) (c : Nat) (cell : Cell) (par :
     Map.insertLeaf fuel h c cell par k v = leafOf (ipbOf false) fuel h c cell par k v := by
   unfold Map.insertLeaf leafOf leafTail linkNew linkFirst
   simp only [ipbOf, Nstd.Generated.Avl.itemsPerBlockMap, Bool.false_eq_true, if_false]
-  by_cases h1 : h.freeItem ≠ 0 <;> by_cases h2 : par ≠ 0 <;>
-    simp only [if_pos h1, if_neg h1, if_pos h2, if_neg h2] <;>
-    first
-      | (generalize Map.insertRebalance fuel _ par = r; cases r <;> rfl)
-      | rfl
+  by_cases h1 : h.freeItem ≠ 0
+  · by_cases h2 : par ≠ 0
+    · simp only [if_pos h1, if_pos h2]
+      first
+        | (generalize Map.insertRebalance fuel _ par = r; cases r <;> rfl)
+        | rfl
+    · simp only [if_pos h1, if_neg h2]
+      try rfl
+  · have h0 : h.freeItem = 0 := by omega
+    by_cases h2 : par ≠ 0
+    · simp only [if_neg h1, if_pos h2]
+      try simp only [h0]
+      try simp only [Heap.setFree]
+      first
+        | (generalize Map.insertRebalance fuel _ par = r; cases r <;> rfl)
+        | rfl
+    · simp only [if_neg h1, if_neg h2]
+      try simp only [h0]
+      try simp only [Heap.setFree]
+      try rfl
 
 theorem multi_insertRebalance : Multi.insertRebalance = Map.insertRebalance := by
   funext fuel h p
@@ -74,10 +89,25 @@ theorem multi_insertLeaf_eq (fuel : Nat) (h : Heap) (c : Nat) (cell : Cell) (par
     Multi.insertLeaf fuel h c cell par k v = leafOf (ipbOf true) fuel h c cell par k v := by
   unfold Multi.insertLeaf leafOf leafTail linkNew linkFirst
   simp only [multi_insertRebalance, multi_insertThread, ipbOf, Nstd.Generated.Avl.itemsPerBlockMulti, if_true]
-  by_cases h1 : h.freeItem ≠ 0 <;> by_cases h2 : par ≠ 0 <;>
-    simp only [if_pos h1, if_neg h1, if_pos h2, if_neg h2] <;>
-    first
-      | (generalize Map.insertRebalance fuel _ par = r; cases r <;> rfl)
-      | rfl
+  by_cases h1 : h.freeItem ≠ 0
+  · by_cases h2 : par ≠ 0
+    · simp only [if_pos h1, if_pos h2]
+      first
+        | (generalize Map.insertRebalance fuel _ par = r; cases r <;> rfl)
+        | rfl
+    · simp only [if_pos h1, if_neg h2]
+      try rfl
+  · have h0 : h.freeItem = 0 := by omega
+    by_cases h2 : par ≠ 0
+    · simp only [if_neg h1, if_pos h2]
+      try simp only [h0]
+      try simp only [Heap.setFree]
+      first
+        | (generalize Map.insertRebalance fuel _ par = r; cases r <;> rfl)
+        | rfl
+    · simp only [if_neg h1, if_neg h2]
+      try simp only [h0]
+      try simp only [Heap.setFree]
+      try rfl
 
 end Nstd.Avl
